@@ -49,6 +49,36 @@ CHECKS = {
    note=TB + "Partial by nature: atomicity is the source line (as the property states); bytecode-level preemption, the GIL and "
         "free-threaded builds are not modelled. Axioms: none.",
    tech="Rocq proof: lock invariant over all interleavings + exhaustive bounded schedule replay", ref="DESIGN.md §4 C20"),
+ "C03": dict(
+   text="Theorems over the quantity-dispatch model (Python's reflected-operator protocol, every dunder of Quantity/Unit/Prefix, "
+        "functools.total_ordering): C03_mul_dims, C03_div_dims_partial (+ C03_refuted_rtruediv for number/quantity, a known finding), "
+        "C03_pow_dims, C03_root_dims, C03_addsub_left_unit, C03_decimal_*, C03_incommensurable_{addsub,convert,eq,order} for all "
+        "operands and every conversion oracle. Tied to the code by kernel-checked correspondence on the exhaustive operator x operand "
+        "class x magnitude kind matrix (result class, unit triple, kind, value, exception class) and the property's own monitor.",
+   note=TB + "Division theorem is partial: number/quantity keeps the unit in the code (pinned by its tests). Decimal context signals and "
+        "complex roots are outside the exact model. Axioms: none.",
+   tech="Rocq proof: case analysis over the operator-dispatch model + vm_compute correspondence on the operand matrix", ref="DESIGN.md §4 C03"),
+ "C06": dict(
+   text="Theorems C06_mul/div/pow (unconditional) and C06_addsub/eq/lt/conversion_preserves_value (for every conversion oracle sound "
+        "for the sizes): the value magnitude*prefix*size of every result is the operation on the operands' values, for all sizes, "
+        "units and magnitudes. Correspondence: dispatch model vs implementation on re-expressed operand pairs, and SI values of "
+        "results against an exact rational oracle solved from the intercepted declarations.",
+   note=TB + "+ - == < are conditional on conversion soundness (C04). Float rounding is measured at 1e-9, not proved; near-ties excluded. Axioms: none.",
+   tech="Rocq proof: homomorphism of the value function over Q (field) + vm_compute correspondence", ref="DESIGN.md §4 C06"),
+ "C11": dict(
+   text="Theorems C11_prefix_mul/div/pow/root (exact values of same-base prefix arithmetic), C11_prefixed_quantity, "
+        "C11_power_distributes (normal-form equality), C11_divide_by_prefixed, C11_unprefixed. Correspondence: prefix-heavy operator "
+        "cases vs the dispatch model; the property's relations evaluated on the implementation over the exhaustive prefix x exponent grid; "
+        "mixed SI/IEC at 1e-9.",
+   note=TB + "Mixed-base prefixes carry float exponents: numerical check only, as the property allows. Axioms: none.",
+   tech="Rocq proof: Qpower algebra of prefix values + vm_compute correspondence", ref="DESIGN.md §4 C11"),
+ "C12": dict(
+   text="Theorems C12_eq_reflexive, C12_eq_symmetric, C12_trichotomy, C12_le_ge_mirror (total_ordering's derivations modelled literally), "
+        "C12_sorted_physically, C12_measurement_eq_symmetric (+ C12_refuted_old_measurement_eq), C12_hash_refuted / C12_hash_partial (the "
+        "hash clause is false of the code: known finding). Correspondence: full truth tables in both argument orders vs the model, hash, "
+        "and the symmetric interval model vs Measurement == on sampled pairs.",
+   note=TB + "Order laws conditional on sound conversions; hash clause refuted (known finding). Axioms: none.",
+   tech="Rocq proof: order laws from value semantics over Q + vm_compute truth-table correspondence", ref="DESIGN.md §4 C12"),
 }
 NA = {}
 def main():
